@@ -7,7 +7,7 @@ from witnesses import WITNESSES, corpus_for
 
 PID = "C01"
 COQ_TARGETS = cp.COQ_TARGETS + ["Proofs/CoveredDefs.vo"]
-KNOWN = ["D19", "D1", "D3", "D4", "D9", "D21", "D24"]
+KNOWN = ["D19", "D1", "D3", "D4", "D9", "D21", "D24", "D26"]
 
 
 def transparency_failures(scn, il=None):
@@ -535,6 +535,8 @@ def run_(ctx):
                 finding = "D21" if lazy else cp.zone_of(scn)
             elif cp.agrees(il, ml, scn, upto=j) and in_zone_d24(scn, j):
                 finding = "D24"
+            elif cp.agrees(il, ml, scn, upto=j) and cp.in_zone_d26(scn, [op[4] for op in scn["ops"][:j + 1]]):
+                finding = "D26"
             if finding:
                 tagged[finding] = tagged.get(finding, 0) + 1
             violations.append(dict(desc="an evaluation on the long-lived (cached) graph differs from the cache-free evaluation of a fresh copy",
